@@ -610,13 +610,21 @@ Proof.
   apply (skept_aset cr _ _ inf); [exact El|]. destruct (uo_info o), (uo_method o); reflexivity.
 Qed.
 
+Lemma forget_urr_kept cr ok i rs c : ukept cr c (forget_urr ok i rs c).
+Proof.
+  unfold ukept. destruct (forget_urr_s ok i rs c) as [E|E]; rewrite E; [apply skept_refl|].
+  split; [reflexivity|]. intros u inf' H. cbn [set_urrs s_urrs] in H. left.
+  destruct (N.eq_dec u i) as [->|Hne]; [rewrite alookup_adel_same in H; discriminate|].
+  rewrite alookup_adel_other in H by exact Hne. exists inf'. auto.
+Qed.
+
 Lemma remove_urr_kept cr e id c : ukept cr c (fst (remove_urr e id c)).
 Proof.
   unfold remove_urr. destruct id as [i|]; [|apply ukept_refl].
   destruct (alookup i (s_urrs (c_s c))) as [inf|] eqn:El; [|apply ukept_refl].
   match goal with |- context [drv e ?cx DRemove KURR i] =>
     pose proof (drv_s e cx DRemove KURR i) as Hs; destruct (drv e cx DRemove KURR i) as [c2 ok] end.
-  cbn [fst] in *. unfold ukept. rewrite Hs. cbn [upd_s c_s].
+  cbn [fst] in *. eapply ukept_trans; [|apply forget_urr_kept]. unfold ukept. rewrite Hs. cbn [upd_s c_s].
   apply (skept_aset cr _ _ inf); [exact El | reflexivity].
 Qed.
 
